@@ -307,8 +307,42 @@ def interpreter_limits() -> Optional[dict]:
     return None
 
 
+def stray_overrides() -> Optional[dict]:
+    """An `overrides` mapping may name keys the class does not declare (one mapping shared by related classes): the
+    record-class validators answer every input - also one that carries such a key - with a Valid or an Invalid."""
+    import dataclasses as _dc
+    from typing import NamedTuple, TypedDict
+    from koda_validate import DataclassValidator, IntValidator, NamedTupleValidator, StringValidator, TypedDictValidator
+    NT = NamedTuple("NT", [("a", int), ("b", str)])
+    DC = _dc.make_dataclass("DC", [("a", int), ("b", str)])
+    TD = TypedDict("TD", {"a": int, "b": str})
+    shared = {"a": IntValidator(), "zz": StringValidator(), "extra": IntValidator()}
+    for V, cls in ((NamedTupleValidator, NT), (DataclassValidator, DC), (TypedDictValidator, TD)):
+        for strict in (False, True):
+            try:
+                v = V(cls, overrides=dict(shared), fail_on_unknown_keys=strict)
+            except Exception as e:  # noqa
+                return {"kind": "oracle", "signature": f"C01:{type(e).__name__}:stray-overrides",
+                        "what": f"{V.__name__}({cls.__name__}, overrides naming 'zz' and 'extra', which are not fields) raised {e!r} at construction",
+                        "replay_case": {"stray_overrides": True}}
+            for x in ({"a": 1, "b": "s", "zz": "t", "extra": 2}, {"a": 1, "b": "s", "zz": "t"}, {"a": 1, "b": "s", "zz": 5, "extra": 2}, {"a": 1, "b": "s"}, {"zz": "t"}, {"a": "no", "extra": "x"}):
+                for mode in ("sync", "async"):
+                    try:
+                        r = v(x) if mode == "sync" else drive(v.validate_async(x))
+                        if not hasattr(r, "is_valid"):
+                            raise TypeError("not a result")
+                    except Exception as e:  # noqa
+                        return {"kind": "oracle", "signature": f"C01:{type(e).__name__}:stray-overrides",
+                                "what": f"{V.__name__}({cls.__name__}, overrides naming non-fields, fail_on_unknown_keys={strict}) ({mode}) on {x!r} raised {e!r}",
+                                "replay_case": {"stray_overrides": True}}
+    return None
+
+
 def run(tier: str, rng: random.Random, proof_ok: bool) -> dict:
     rep = run_families("C01", cases(tier, rng), rng, oracle, nontrivial)
+    so = stray_overrides()
+    if so:
+        rep["violations"].append(so)
     il = interpreter_limits()
     if il:
         rep["violations"].append(il)
@@ -321,6 +355,10 @@ def run(tier: str, rng: random.Random, proof_ok: bool) -> dict:
 def replay(path: str) -> int:
     import json
     rc = json.load(open(path)).get("replay_case")
+    if isinstance(rc, dict) and rc.get("stray_overrides"):
+        so = stray_overrides()
+        print("property violated: " + so["what"] if so else "property holds for overrides naming non-fields")
+        return 1 if so else 0
     if isinstance(rc, dict) and rc.get("interpreter_limits"):
         il = interpreter_limits()
         print("property violated: " + il["what"] if il else "property holds for values at the interpreter's limits")
